@@ -622,6 +622,26 @@ func (c *EvalCtx) evalCall(e *ECall) Val {
 			c.fail("asref: unknown type %s", e.Args[1].String())
 		}
 		return Val{K: KScalar, T: t, S: v.S}
+	case "header":
+		// header(h, "Name"): first value of the canonicalised key, "" when absent (http.Header.Get)
+		h := c.eval(e.Args[0])
+		k := c.eval(e.Args[1])
+		if h.T == nil {
+			c.fail("header() needs an http.Header")
+		}
+		mt, ok := h.T.Underlying().(*types.Map)
+		if !ok {
+			c.fail("header() needs an http.Header")
+		}
+		eng.ufun("canon_header", "("+eng.strSort()+") "+eng.strSort())
+		et := mt.Elem().Underlying().(*types.Slice).Elem()
+		v, dom := eng.mapLoad(c.p, c.snap(), h.T, h.S, "(canon_header "+k.S+")")
+		first := eng.loadElem(c.p, c.snap(), v.S, v.Off, et)
+		return Val{K: KScalar, T: types.Typ[types.String], S: ite(and(dom, "(> "+v.Len+" 0)"), first.S, zeroOfSort(eng.strSort()))}
+	case "durstring":
+		v := c.eval(e.Args[0])
+		eng.ufun("dur_string", "(Int) "+eng.strSort())
+		return Val{K: KScalar, T: types.Typ[types.String], S: "(dur_string " + v.S + ")"}
 	case "tagof":
 		v := c.eval(e.Args[0])
 		if v.K != KIface {
